@@ -367,7 +367,7 @@ func propC13(c *ctx) error {
 		// exported fields and methods whose names begin with an upper-case letter outside ASCII (2-, 3- and 4-byte UTF-8)
 		uni := uniNames{Émail: "e", Имя: "i", Ảnh: "a", Ὄνομα: "o", Ｘ: 7, 𐐀bc: "d", Ωmega: 8, ảnh: "hidden"}
 		data := map[string]any{"vm": anon, "vp": anonP, "pvm": &anon, "nm": namedMap{"k": 1, "Len": 2}, "pp": &pp,
-			"box": struct{ V any }{V: sv}, "boxp": struct{ V fmt.Stringer }{V: stringerT("st")}, "u": uni, "up": &uni,
+			"box": struct{ V any }{V: sv}, "boxp": struct{ V fmt.Stringer }{V: stringerT("st")}, "u": uni, "up": &uni, "nilm": map[string]any{"k": nil, "z": 0, "e": ""}, "nilms": map[string]*S{"p": nil},
 			// maps whose key TYPE is an interface, holding string keys (what a YAML / generic decoder produces)
 			"am": map[any]any{"name": "tpl", "n": 3, 1: "one", true: "yes"}, "ams": map[any]string{"k": "v"}, "amn": map[any]any{"inner": map[any]any{"deep": "d"}}}
 		cases := []struct{ src, want string }{
@@ -381,6 +381,9 @@ func propC13(c *ctx) error {
 			{"u.Ｘ", "int:7"}, {"u.𐐀bc", "string:" + hexOf("d")}, {"u.Ωmega", "int:8"}, {"up.Ảnh", "string:" + hexOf("a")}, {"up.Ｘ", "int:7"},
 			{"u['Ảnh']", "string:" + hexOf("a")}, {"u['𐐀bc']", "string:" + hexOf("d")}, {"u.Ḿethod()", "string:" + hexOf("m")}, {"up.Ḿethod()", "string:" + hexOf("m")},
 			{"u.ảnh", "error"}, {"u.Ảnx", "error"},
+			// a key that is PRESENT with a nil / zero value is found (its value is nil / zero); only an absent key is an error
+			{"nilm.k == nil", "bool:true"}, {"nilm['k'] == nil", "bool:true"}, {"nilm.k != nil", "bool:false"}, {"nilm.z", "int:0"}, {"nilm.e", "string:"}, {"nilm.absent", "error"},
+			{"isNull(nilms.p)", "bool:true"}, {"nilms.q", "error"},
 			{"am.name", "string:" + hexOf("tpl")}, {"am['name']", "string:" + hexOf("tpl")}, {"am.n", "int:3"}, {"ams.k", "string:" + hexOf("v")}, {"ams['k']", "string:" + hexOf("v")},
 			{"amn.inner.deep", "string:" + hexOf("d")}, {"amn['inner']['deep']", "string:" + hexOf("d")}, {"am.absent", "error"}, {"len(am)", "int:4"},
 		}
